@@ -6,6 +6,7 @@
 package main
 
 import (
+	"context"
 	"encoding/json"
 	"fmt"
 	"os"
@@ -284,7 +285,10 @@ func main() {
 			if tier == "thorough" {
 				args = append(args, "-thorough")
 			}
-			cmd := exec.Command(worker, args...)
+			// second line of defence behind the worker's own watchdog
+			wctx, wcancel := context.WithTimeout(context.Background(), time.Duration(secs+300)*time.Second)
+			defer wcancel()
+			cmd := exec.CommandContext(wctx, worker, args...)
 			cmd.Env = append(os.Environ(), "GOMAXPROCS=2")
 			if spec.Race {
 				rl := filepath.Join(scratch, fmt.Sprintf("race-w%d", i))
